@@ -1,6 +1,6 @@
 SPECIFICATION Spec
 CONSTANTS
-  Ls <- LsTwo
+  Ls <- LsS
   Bszs <- BszAll
   D = 2
   Caps <- CapsS
@@ -9,7 +9,7 @@ CONSTANTS
   MaxSweeps = 2
   MinExtra = 0
   Ranks = "max"
-  Mutant = "none"
+  Mutant = "no_renorm"
   Emit = FALSE
-INVARIANT PosInRange
+INVARIANT EndNormalizedAnyCap
 CHECK_DEADLOCK FALSE
